@@ -450,8 +450,14 @@ func (c *Check) checkSpawnJoin(rule string) {
 			}
 		}
 		if !found {
+			// a goroutine the inventory does not know: accepted when it has the
+			// generic join shape -- its body signals completion in a defer
+			// (close of a channel, or WaitGroup.Done) and some function outside
+			// the goroutine waits for exactly that signal
 			_ = tn
-			c.fail(rule, p.Name(s.In), "go statement in "+p.ownerName(s.In), p.InstrPos(s.Instr), "goroutine spawn that is not in the confirmed inventory: no completion signal / join is known for it, so shutdown cannot wait for it")
+			okJ, how := p.genericJoin(s)
+			c.require(okJ, rule, p.Name(s.In), "go statement in "+p.ownerName(s.In), p.InstrPos(s.Instr),
+				"a goroutine outside the confirmed inventory must signal completion in a defer and be waited for: "+how)
 		}
 	}
 	for i, sc := range specs {
@@ -562,4 +568,77 @@ func (c *Check) capturedVarDiscipline(rule string) {
 		}
 	}
 	c.floor(rule, n, 5, "go statements / captured cells")
+}
+
+// genericJoin: the goroutine's target closes a channel (or calls
+// WaitGroup.Done) in a defer, and a function that is not part of the
+// goroutine receives from that channel (or calls WaitGroup.Wait).
+func (p *Prog) genericJoin(s Spawn) (bool, string) {
+	if s.Target == nil {
+		return false, "target not resolvable"
+	}
+	body := map[*ssa.Function]bool{}
+	for _, f := range withAnon(s.Target) {
+		body[f] = true
+	}
+	var doneKeys []string
+	wgDone := false
+	for f := range body {
+		ownInstrs(f, func(in ssa.Instruction) {
+			d, ok := in.(*ssa.Defer)
+			if !ok {
+				return
+			}
+			switch p.calleeDesc(d) {
+			case "builtin:close":
+				if len(d.Call.Args) == 1 {
+					if k := chanFieldName(d.Call.Args[0]); k != "" {
+						doneKeys = append(doneKeys, k)
+					}
+				}
+			case "sync.WaitGroup.Done":
+				wgDone = true
+			}
+			if t := p.staticLocalCallee(d); t != nil {
+				for _, cl := range p.callsDeep(t, descIs("builtin:close")) {
+					if k := chanFieldName(cl.Common().Args[0]); k != "" {
+						doneKeys = append(doneKeys, k)
+					}
+				}
+				if len(p.callsDeep(t, descIs("sync.WaitGroup.Done"))) > 0 {
+					wgDone = true
+				}
+			}
+		})
+	}
+	if len(doneKeys) == 0 && !wgDone {
+		return false, "no deferred close / WaitGroup.Done in the goroutine"
+	}
+	for _, g := range p.AllFuncs {
+		if body[g] {
+			continue
+		}
+		joined := false
+		ownInstrs(g, func(in ssa.Instruction) {
+			switch x := in.(type) {
+			case *ssa.UnOp:
+				if x.Op.String() == "<-" {
+					k := chanFieldName(x.X)
+					for _, dk := range doneKeys {
+						if k == dk {
+							joined = true
+						}
+					}
+				}
+			case ssa.CallInstruction:
+				if wgDone && p.calleeDesc(x) == "sync.WaitGroup.Wait" {
+					joined = true
+				}
+			}
+		})
+		if joined {
+			return true, "joined in " + p.Name(g)
+		}
+	}
+	return false, "nobody waits for the goroutine's completion signal"
 }
